@@ -199,6 +199,12 @@ def check32(m: str, even: bool, acc: Acc, sample=False):
         calls += 2
         if len(full) != 32 or e2.to01() != e:
             acc.violation("sb32_reencode_of_full_matrix_differs", case, "encode(deinterleave_all_bits(encode(m))) != encode(m)")
+        # the matrix of one parity variant handed to the encoder with the other variant requested: the message in it, encoded as requested
+        e3 = VBPTC3211.encode(VBPTC3211.deinterleave_all_bits(enc), not even)
+        calls += 2
+        if e3.to01() != ref_encode32(m, not even):
+            acc.violation("sb32_matrix_form_ignores_the_requested_parity_variant", {**case, "got": e3.to01(), "want": ref_encode32(m, not even)},
+                          "encode(matrix of the even codeword, even_parity=False) is not the odd codeword of the same message (or vice versa)")
     except Exception as ex:
         acc.violation("exception:" + exc_sig(ex), case, repr(ex))
     acc.case(nontrivial=True, calls=calls, outcome=(outcome, even), sample=case if sample else None)
